@@ -24,6 +24,22 @@ pub fn generate(tier: &str, seed: u64) -> Vec<String> {
         out.push("c01 op reopen".to_string());
         gen_full_reads(&mut rng, &cfg, &mut out, "c01");
     }
+    // (own stream) the write options are part of "every history": the partial-encoding write strategy on general
+    // configurations, and on chains with TWO array->array codecs (each stage must read what the next one stored)
+    let mut r2 = Rng::new(seed ^ 0xC01_9E);
+    for k in 0..(if thorough { 600 } else { 60 }) {
+        let cfg = if k % 2 == 0 { gen_two_a2a_cfg(&mut r2) } else { gen_cfg(&mut r2, if k % 4 == 1 { Some(true) } else { None }) };
+        if cfg.shape.is_empty() { continue; }
+        out.push(cfg.cfg_line("c01", "memory", false, true, ""));
+        out.push(format!("c01 op store_array_subset r={}+{} data={}", nl(&vec![0; cfg.shape.len()]), nl(&cfg.shape), gen_data(&mut r2, &cfg, cfg.shape.iter().product())));
+        for _ in 0..r2.range(2, 8) {
+            out.push(format!("c01 {}", gen_write_op(&mut r2, &cfg)));
+            if r2.chance(1, 2) { out.push(format!("c01 {}", gen_read_op(&mut r2, &cfg))); }
+        }
+        gen_full_reads(&mut r2, &cfg, &mut out, "c01");
+        out.push("c01 op reopen".to_string());
+        gen_full_reads(&mut r2, &cfg, &mut out, "c01");
+    }
     out
 }
 
@@ -39,7 +55,10 @@ pub fn generate_c04(tier: &str, seed: u64) -> Vec<String> {
         // prefer the fills that are easy to confuse: non-zero, NaN, -0.0, non-empty strings
         if cfg.dtype.fills.len() > 1 && rng.chance(2, 3) { cfg.fill = cfg.dtype.fills[rng.range(1, cfg.dtype.fills.len() as u64 - 1) as usize].clone(); }
         let empty = k % 4 == 3;
-        out.push(cfg.cfg_line("c04", "memory", empty, false, ""));
+        // the partial-encoding write strategy decides about elision on its own code path (every fifth case; with elision on,
+        // the stored keys are those of a full rewrite)
+        let penc = !empty && k % 5 == 2;
+        out.push(cfg.cfg_line("c04", "memory", empty, penc, ""));
         let nops = if thorough { rng.range(2, 24) } else { rng.range(2, 10) };
         for _ in 0..nops {
             let mut op = gen_write_op(&mut rng, &cfg);
@@ -60,6 +79,9 @@ pub fn generate_c04(tier: &str, seed: u64) -> Vec<String> {
         }
         gen_full_reads(&mut rng, &cfg, &mut out, "c04");
     }
+    // a value-mapping array->array codec (the ENCODED fill value differs from the fill value), partial encoding: chunks made
+    // entirely of the value whose encoding is the fill value, and of the encoded fill value itself, are NOT fill chunks
+    { let mut r2 = Rng::new(seed ^ 0xC04_F5); crate::c05::value_mapping_family(&mut r2, &mut out, "c04"); }
     out
 }
 
